@@ -226,6 +226,10 @@ def run_prog(prog):
                     raise RuntimeError("unknown op " + kind)
                 if newbox is not None:
                     r = ["box", canon_vec(newbox[1].mini), canon_vec(newbox[1].maxi)]
+        except KeyError as ex:
+            # a slot that does not exist (only when a shrunk program dropped its definition): not an observation
+            exc = "harness:missing-slot %s" % ex
+            newbox = None
         except Exception as ex:  # noqa
             exc = exc_kind(ex)
             newbox = None
